@@ -265,6 +265,15 @@ static void one_case(rng& g, char const* ename, E const& base, int kind, std::si
             if (n >= 3) w0[n - 1] = T();
             minw = T(0.1);
         }
+        if (nres == 0 && g.below(2))
+        {
+            // no results yet: the first weights are stored as they are - also when their floating-point sum is one ulp off one
+            static std::size_t const ns[7] = {6, 7, 9, 10, 11, 12, 4};
+            n = ns[g.below(7)];
+            w0.assign(n, T(1));
+            if (n == 4) { w0[0] = T(0.3); w0[1] = T(0.3); w0[2] = T(0.3); w0[3] = T(0.1); }
+            minw = T();
+        }
         auto c = hep::make_multi_channel_chkpt<T, E>(w0, minw, beta, advanced(base, g));
         for (std::size_t i = 0; i != nres; ++i)
         {
